@@ -706,6 +706,7 @@ def plain_spec(rng, kind, holes=None):
         return ['ellipse', c, rng.choice([3000, 2345.75]), rng.choice([1000, 987.25]), rng.choice([33, 45, 100.5]),
                 plain_holes(rng, cx, cy, nh), None]
     if kind in ('ring', 'wedge'):
+        c = c[:2]       # (a wedge with a Z centre cannot be hashed on the unchanged tree: its centroid goes through a Z polygon - reported)
         a0, a1 = (0, 360) if kind == 'ring' else (rng.choice([15, 45.5]), rng.choice([140, 200.25]))
         return ['ring', c, rng.choice([100, 321.5]), rng.choice([900, 1765.25]), a0, a1, plain_holes(rng, cx, cy, nh), None]
     n = rng.choice([1, 2, 3])
@@ -785,8 +786,8 @@ def round_trip_routes():
 
 
 def usable_observations(s):
-    b = s.bounds
-    mid = Coordinate((b[0] + b[2]) / 2, (b[1] + b[3]) / 2)
+    b = guarded(lambda: s.bounds)        # (raises for outlines with z: not this property's subject)
+    mid = Coordinate((b[1][0] + b[1][2]) / 2, (b[1][1] + b[1][3]) / 2) if b[0] == 'Ok' else Coordinate(8.25, 8.5)
     return [('bounds', lambda y: y.bounds), ('to_wkt', lambda y: y.to_wkt()), ('to_shapely', lambda y: y.to_shapely().wkt),
             ('contains_coordinate', lambda y: (y.contains_coordinate(mid), y.contains_coordinate(Coordinate(0.5, 0.5)))),
             ('centroid', lambda y: y.centroid.to_float()), ('to_geojson', lambda y: json.dumps(y.to_geojson(), sort_keys=True, default=str)),
@@ -926,31 +927,49 @@ def nudges(rng, v):
 MULTI_OF = {'point': MultiGeoPoint, 'line': MultiGeoLineString}
 
 
-def nudge_family(rng, spec, path, fname, full=True):
+def in_curved_hole_of_polygon(spec, path):
+    """GeoPolygon.__eq__ compares holes through their bounding_coords(), which inverse_haversine rounds to 1e-7 degrees:
+    for a field of a circle / ellipse / ring HOLE OF A GeoPolygon the exact reference does not apply (the model takes those
+    coordinates from the implementation, Section variable curve); the family then judges the laws on the observed relation"""
+    sp, p = spec, list(path)
+    while True:
+        k = sp[0]
+        if k.startswith('m'):
+            sp, p = sp[1][p[1]], p[2:]
+            continue
+        if k in HOLEPOS and p[0] == HOLEPOS[k] and len(p) > 2:
+            return k == 'poly' and sp[p[0]][p[1]][0] in ('circle', 'ellipse', 'ring')
+        return False
+
+
+def nudge_family(rng, spec, path, fname, vals=None, other=None):
     """Mechanism class: a tolerance (math.isclose, round, int, float32, string formatting ...) entering the == or the
     hash of ANY numeric defining field of any shape kind, at top level, inside a hole or inside a member, so that equality
     stops being the exact, transitive relation the hash and the multi-shape comparison are built on.
     All members of the family are the same shape except for the one field; the reference is exact: two members are the
     same iff the field values are the same number.
-    Returns (fails [(clause, text, specA, specB)], members [(value, spec)])."""
-    vals = nudges(rng, get_at(spec, path))
+    Returns (fails [(clause, text, specA, specB)], values, specs, spec of the common second member of the multi-shapes)."""
+    vals = nudges(rng, get_at(spec, path)) if vals is None else vals
+    if other is None:
+        other = plain_spec(rng, {'point': 'point', 'line': 'line'}.get(spec[0], 'box'), holes=0)
     specs = [set_at(spec, path, v) for v in vals]
-    objs = [build(sp, (0, 1, 2)[i % 3] if i < 2 else 0) for i, sp in enumerate(specs)]
+    objs = [build(sp, i if i < 3 else 0) for i, sp in enumerate(specs)]     # styles: int/float, tz representation, m
     n = len(objs)
     fails = []
-    classes = []
-    for v in vals:
-        if not any(v == w for w in classes):
-            classes.append(v)
-    ncls = len(classes)
+    exact = not in_curved_hole_of_polygon(spec, path)
     E = [[objs[i] == objs[j] for j in range(n)] for i in range(n)]
     Hs = [hash(o) for o in objs]
+    classes = []
+    for i, v in enumerate(vals):
+        if not any((v == vals[w]) if exact else E[w][i] for w in classes):
+            classes.append(i)
+    ncls = len(classes)
     for i in range(n):
         for j in range(n):
             same = vals[i] == vals[j]
             if E[i][j] != E[j][i]:
                 fails.append(('symmetry', f'{fname}: a == b is {E[i][j]} but b == a is {E[j][i]}', specs[i], specs[j]))
-            if E[i][j] and not same:
+            if E[i][j] and not same and exact:
                 fails.append(('differ-unequal', f'{fname} = {vals[i]!r} and {vals[j]!r} differ but the shapes compare equal', specs[i], specs[j]))
             if same and not E[i][j]:
                 fails.append(('rewrite-equal', f'{fname} = {vals[i]!r} and {vals[j]!r} are the same number but the shapes compare unequal', specs[i], specs[j]))
@@ -966,21 +985,19 @@ def nudge_family(rng, spec, path, fname, full=True):
         fails.append(('set', f'{fname}: {n} shapes of {ncls} distinct values give a set of {len(set(objs))} and a dict of {len(dict.fromkeys(objs))} keys',
                       specs[0], specs[-1]))
     # multi-shapes over the members: equal iff the members are
-    if full and not hasattr(objs[0], 'geoshapes'):
+    if not hasattr(objs[0], 'geoshapes'):
         cls = MULTI_OF.get(spec[0], MultiGeoPolygon)
-        other = build(plain_spec(rng, {'point': 'point', 'line': 'line'}.get(spec[0], 'box'), holes=0))
-        ms = [cls([o, other]) if i % 2 else cls([other, o]) for i, o in enumerate(objs)]
+        ms = [cls([o, build(other)]) if i % 2 else cls([build(other), o]) for i, o in enumerate(objs)]
         ME = [[ms[i] == ms[j] for j in range(n)] for i in range(n)]
         MH = [hash(m) for m in ms]
         for i in range(n):
             for j in range(n):
-                same = vals[i] == vals[j]
-                if ME[i][j] != same or ME[i][j] != ME[j][i] or (ME[i][j] and MH[i] != MH[j]):
+                if ME[i][j] != E[i][j] or ME[i][j] != ME[j][i] or (ME[i][j] and MH[i] != MH[j]):
                     fails.append(('multi', f'multi-shapes over members with {fname} = {vals[i]!r} / {vals[j]!r} and a common second member: '
-                                           f'== is {ME[i][j]} / {ME[j][i]}, hashes equal: {MH[i] == MH[j]}', specs[i], specs[j]))
+                                           f'== is {ME[i][j]} / {ME[j][i]} (members: {E[i][j]}), hashes equal: {MH[i] == MH[j]}', specs[i], specs[j]))
         if len(set(ms)) != ncls:
             fails.append(('multi', f'{fname}: multi-shapes over {ncls} distinct members give a set of {len(set(ms))}', specs[0], specs[-1]))
-    return fails, list(zip(vals, specs))
+    return fails, vals, specs, other
 
 
 def main():
@@ -1083,6 +1100,58 @@ def main():
         ncopy += 1
         ck.count('copy:' + base[0])
 
+    # ---- strengthened families, judged by the property alone (plus the model where a Gallina case exists)
+    pure = []
+    # (a) every serialisation route x every place time bounds can sit x every kind
+    for kind in KINDS:
+        for _ in range(1 if not thorough else 6):
+            g = plain_spec(rng, kind)
+            for what, sp in time_variants(rng, g):
+                sty, props, warm = rng.randrange(3), rng.choice(PROPS), rng.random() < .5
+                m = {'k': 'roundtrip', 'a': sp, 'style': sty, 'props': props, 'warm': warm, 'what': what}
+                try:
+                    cs, fails = round_trip_checks(sp, sty, props, warm)
+                except Exception as ex:     # noqa
+                    cs, fails = [], [('harness', f'the round-trip family stopped: {type(ex).__name__}: {ex}')]
+                for c in cs:
+                    add(c, m)
+                if fails:
+                    pure.append(dict(m, property_clauses_violated=fails[:12]))
+                nontrivial.add(json.dumps(['rt', sp]))
+                ck.count('roundtrip:' + kind + ':' + what)
+    # (b) one-field nudges of every numeric field
+    for kind in KINDS:
+        for _ in range(1 if not thorough else 5):
+            g = plain_spec(rng, kind, holes=(None if kind.startswith('m') else rng.choice([1, 2])))
+            g = g[:-1] + [rng.choice(DTS)]
+            paths = field_paths(g)
+            byclass = {}
+            for pth in paths:
+                byclass.setdefault(''.join(ch for ch in pth[1] if not ch.isdigit()), []).append(pth)
+            chosen = [rng.choice(v) for v in byclass.values()]
+            rest = [pth for pth in paths if pth not in chosen]
+            if not thorough:
+                rest = rng.sample(rest, max(0, min(len(rest), 16 - len(chosen))))
+            for path, fname in chosen + rest:
+                try:
+                    fails, vals, specs, other = nudge_family(rng, g, path, fname)
+                except Exception as ex:     # noqa
+                    pure.append({'k': 'nudge', 'base': g, 'path': list(path), 'field': fname,
+                                 'property_clauses_violated': [('raises', f'{type(ex).__name__}: {ex}')]})
+                    continue
+                if fails:
+                    pure.append({'k': 'nudge', 'base': g, 'path': list(path), 'field': fname, 'vals': vals, 'other': other,
+                                 'a': fails[0][2], 'b': fails[0][3], 'failures': len(fails),
+                                 'property_clauses_violated': list({f[0]: f[:2] for f in reversed(fails)}.values())[::-1]})   # first of each clause
+                # the same pairs through the model (exact dyadic encoding)
+                n, ex = len(vals), not in_curved_hole_of_polygon(g, path)
+                for i, j in [(0, 1), (0, 2), (0, rng.randrange(3, n)), (0, 6), (6, 7), (rng.randrange(n), rng.randrange(n))]:
+                    add_pair(specs[i], specs[j], 'same' if vals[i] == vals[j] else ('diff' if ex else 'any'), f'one-field nudge of {fname}',
+                             (rng.randrange(3), rng.randrange(3)))
+                    if vals[i] != vals[j]:
+                        nontrivial.add(json.dumps([specs[i], specs[j]]))
+                ck.count('nudge:' + kind)
+
     ck.cov['evaluations'] = len(cases)
     ck.cov['distinct_nontrivial'] = len(nontrivial)
     for i in (0, 30, 400, len(cases) - 1):
@@ -1092,6 +1161,9 @@ def main():
     for i, m in enumerate(meta):
         if 'property_clauses_violated' in m:
             bad.add(i)
+    for m in pure[:5]:
+        ck.violation({'kind': 'property-fails-on-implementation', 'case': m, 'gallina_case': None,
+                      'theorems': 'C15_* (Props/C15.v)', 'how_to_replay': 'bin/check C15 --replay <this file>'})
     for i in sorted(bad)[:5]:
         m = meta[i]
         ck.violation({'kind': 'property-fails-on-implementation' if 'property_clauses_violated' in m else 'model-vs-implementation',
@@ -1103,9 +1175,19 @@ def main():
                    'field (vertex, corner, centre, radius, axis, angle, z, dt, hole, member) - observed a==b, b==a, hash equality, '
                    'len({a,b}), dict lookup; variant-vs-variant pairs and triples (transitivity); cross-kind pairs; constructor '
                    'outputs for every rewrite; copy()/pickle values, object identities (is) of shape/_properties/nested containers/dt/'
-                   'holes/members, isolation under mutation, usability after pickle; regression corpus D9/D16/D23/D24. '
+                   'holes/members, isolation under mutation, usability after pickle; regression corpus D9/D16/D23/D24; '
+                   'round trips of every kind x time bounds in every position (own instant/interval, a hole, a member, a hole of a member) '
+                   'through every pickle protocol 0..HIGHEST (bare and inside a list+dict), copy.copy, copy.deepcopy, copy(), with cold '
+                   'and warmed caches, judged by the property (equal both ways, hash, set/dict, independence at every level, usability, '
+                   'original undisturbed); one-field nudge families of every numeric field of every kind incl. fields of holes and members '
+                   '(1/3 ulp, 1e-12..1e-6 relative, chain v, v(1+6e-10), v(1+1.5e-9)) judged against the exact reference (same number or '
+                   'not): ==, symmetry, transitivity, eq=>hash, set/dict class counts, multi-shapes over the members; sampled pairs of each '
+                   'family also go through the model on an exact power-of-two grid. '
                    'non-trivial = distinct (base, variant) with a re-written-but-equal or one-field-different variant',
-              assumptions=['coordinates, radii, axes, angles are multiples of 1/4 (exact doubles); NaN and the antimeridian edge adjustment are outside the model',
+              assumptions=['coordinates, radii, axes, angles are multiples of 1/4 (exact doubles), in the one-field-nudge pairs arbitrary doubles written exactly '
+                           'on a finer power-of-two grid (the model is homogeneous in the unit); NaN and the antimeridian edge adjustment are outside the model',
+                           'fields of a curved (circle/ellipse/ring) hole of a GeoPolygon are compared by the library through bounding_coords() rounded to '
+                           '1e-7 degrees: no "differ => unequal" expectation is stated for nudges of those fields (the other laws are still judged)',
                            'dt is represented by (start,end) in UTC microseconds (C06 model)',
                            'bounding coordinates of curved holes are taken from the implementation (Section variable curve)',
                            'outlines have >= 2 stored entries (a one-vertex outline is not a ring: reflexivity fails there, D25, outside the property domain)'])
@@ -1121,6 +1203,14 @@ def replay(path):
         print('implementation now:', o)
         print('property clauses violated now:', oracle_pair(o, m.get('tag', 'any')))
         print('gallina case:', pair_lit(a, b, o))
+    elif m.get('k') == 'roundtrip':
+        cs, fails = round_trip_checks(m['a'], m.get('style', 0), m.get('props'), m.get('warm', False))
+        print('property clauses violated now:', *fails, sep='\n  ')
+    elif m.get('k') == 'nudge':
+        import random
+        fails = nudge_family(random.Random(0), m['base'], tuple(m['path']), m['field'], m.get('vals'), m.get('other'))[0]
+        print(f'property clauses violated now ({len(fails)} failures; the first of each clause):',
+              *list({f[0]: f[:2] for f in reversed(fails)}.values())[::-1], sep='\n  ')
     elif m.get('k') == 'copy':
         cs, fails = copy_checks(m['a'], m.get('style', 0), m.get('props'))
         print('property clauses violated now:', fails)
